@@ -8,12 +8,12 @@ from emmet.math_expression import evaluate, extract, MathExpressionException
 
 PROP_ID = 'C19'
 RULE = ("evaluate: case = expression text. Layers: every token sequence up to a bound over {2, 7, .5, 10, + - * / \\ ( )} joined "
-        "without and with blanks (exhaustive), every string ≤ 5 over `12.+-*/\\() a` (exhaustive), Hypothesis expression trees of depth ≤ 6 "
+        "without and with blanks (exhaustive), every string ≤ 5 over `12.+-*/\\() a` (exhaustive), every sequence of ≤ 5 (7) pieces over {(1) () ( ) 2 + - *} (exhaustive), Hypothesis piece soups ≤ 12, Hypothesis expression trees of depth ≤ 6 "
         "serialised with random blanks/redundant parentheses/stacked signs, Hypothesis strings ≤ 30. Oracle: reference recursive-descent "
         "parser implementing the stated precedence + exact Fraction evaluation with a rigorous forward error bound for binary64; cases where "
         "a floor() sits within that bound of a discontinuity, and unparenthesised chains mixing \\ with * or /, are skipped and counted. "
-        "Invalid texts may only raise MathExpressionException/ZeroDivisionError; texts with foreign characters, a trailing binary operator or an "
-        "unclosed parenthesis or a decimal point with no digit on either side must raise MathExpressionException; `12.` before a non-digit must raise or be read as 12 (never dropped). extract: every string ≤ 5 over `1.+() a]` × every position × 3 option sets + "
+        "Invalid texts may only raise MathExpressionException/ZeroDivisionError; texts with foreign characters, a trailing binary operator, "
+        "unbalanced parentheses (either way) or a decimal point with no digit on either side must raise MathExpressionException; `12.` before a non-digit must raise or be read as 12 (never dropped). extract: every string ≤ 5 over `1.+() a]` × every position × 3 option sets + "
         "random texts with embedded expressions; oracle = range/charset/balance/end-position predicate. "
         "Non-trivial (evaluate): valid expression with ≥ 2 binary operators of different precedence or a unary sign directly after an operator; "
         "(extract) a non-None result. Distinct by text (and position/options).")
@@ -89,12 +89,11 @@ def check_eval(case, rec, distinct=False):
                 d += (v == '(') - (v == ')')
                 if d < 0:
                     stray = True
-        if toks and not stray:
-            # (texts with a stray `)` are tolerated by the library in undocumented ways; only the exception-type clause applies to them)
+        if toks:
             if toks[-1][0] == 'o' and toks[-1][1] in '+-*/\\':
                 must = True
-            # more `(` than `)`: unclosed whichever way one counts (a stray `)` is tolerated by the library and not claimed either way)
-            if sum(v == '(' for k, v in toks) > sum(v == ')' for k, v in toks):
+            # unbalanced parentheses, either way: more `(` than `)` at the end, or a `)` with nothing open
+            if stray or sum(v == '(' for k, v in toks) > sum(v == ')' for k, v in toks):
                 must = True
         # a decimal point with no digit on either side is no token of the grammar at all
         digits = '0123456789'
@@ -213,6 +212,21 @@ def shard_tokens(ctx, shard, nshards, maxtok):
     ctx.run_cases('eval-x', gen())
 
 
+PIECES = ['(1)', '()', '(', ')', '2', '+', '-', '*']
+
+
+def shard_pieces(ctx, shard, nshards, maxlen):
+    "parenthesis-heavy malformed texts: every sequence of ≤ maxlen pieces (a parenthesised number, an empty pair, single parentheses, a number, three operators)"
+    def gen():
+        k = 0
+        for L in range(1, maxlen + 1):
+            for seq in itertools.product(PIECES, repeat=L):
+                k += 1
+                if k % nshards == shard:
+                    yield {'expr': ''.join(seq)}
+    ctx.run_cases('eval', gen())
+
+
 def shard_strings(ctx, shard, nshards, maxlen):
     ctx.run_cases('eval', ({'expr': s} for s in core.sharded(core.all_strings(A.MATH, maxlen), shard, nshards)))
 
@@ -291,9 +305,14 @@ def run(ctx):
     L = ctx.pick(5, 6)
     ctx.run_parallel('shard_strings', extra=(L,))
     ctx.exhaustive('every string of length ≤ %d over the 12-character alphabet `12.+-*/\\() a` (evaluate)' % L)
+    Pn = ctx.pick(5, 7)
+    ctx.run_parallel('shard_pieces', extra=(Pn,))
+    ctx.exhaustive('every sequence of ≤ %d pieces over %s (evaluate; parenthesis-heavy malformed texts)' % (Pn, ' '.join(PIECES)))
     E = ctx.pick(5, 6)
     ctx.run_parallel('shard_extract', extra=(E,))
     ctx.exhaustive('every string of length ≤ %d over `1.+() a]` × every position × {default, lookAhead off, whitespace off} (extract)' % E)
     ctx.run_parallel('shard_random', extra=(ctx.pick(1500, 20000),))
     ctx.run_hypothesis('eval', st.text(alphabet=A.MATH + ['3', '0', '\t'], max_size=30).map(lambda s: {'expr': s}), ctx.pick(2000, 30000))
+    soup = st.lists(st.sampled_from(['1', '2', '.5', '10', '(1)', '(2)', '()', '(', ')', ')(', '+', '-', '*', '/', '\\', ' ', '.']), min_size=1, max_size=12).map(lambda l: {'expr': ''.join(l)})
+    ctx.run_hypothesis('eval', soup, ctx.pick(2000, 30000), seed_key=77)
     ctx.run_hypothesis('extract', extract_strategy(), ctx.pick(3000, 50000))
